@@ -248,7 +248,10 @@ TimerConnOK(hc, oc, to, k, cands, dl) ==
   /\ oc.closed = exp
   /\ Count(ms, "NOTIFICATION") = (IF exp THEN 1 ELSE 0)
   /\ NotifPairs(ms) \subseteq {<<4, 0>>}
-  /\ \A i \in Idx(ms, "NOTIFICATION") : ms[i].t = dl /\ ms[i].ms = 0 /\ i = Len(ms)
+  \* (the KEEPALIVE due at the expiry instant is written by another goroutine: it may come before the
+  \*  NOTIFICATION, between it and the close, or not at all - see KaMatch)
+  /\ \A i \in Idx(ms, "NOTIFICATION") : ms[i].t = dl /\ ms[i].ms = 0
+  /\ \A i \in Idx(ms, "NOTIFICATION") : \A j \in (i + 1)..Len(ms) : ms[j].ty = "KEEPALIVE" /\ ms[j].t = dl
   /\ Len(ms) = Len(kt) + (IF exp THEN 1 ELSE 0)
   /\ \A i \in 1..Len(ms) : ms[i].ms = 0
   /\ IF kaOn THEN \E f \in cands : KaMatch(kt, f, k, upto, exp) ELSE kt = <<>>
